@@ -120,7 +120,8 @@ type Grant struct {
 
 // Checks if Grant is valid
 func (g *Grant) isValid() bool {
-	return g.Permission.isValid() && g.Grantee.isValid()
+	// a Grant element without a Grantee is not valid
+	return g.Grantee != nil && g.Permission.isValid() && g.Grantee.isValid()
 }
 
 type Grt struct {
